@@ -253,11 +253,24 @@ def run_generator(ctx, tap, gname):
         n_p = int(rng.integers(0, n_pg))
         n_cv = int(rng.integers(1, 4))
         exhaustive = False
+        # a third of the calls rely on the documented defaults for the test-set sizes: the number of groups divided by
+        # the default number of divisions (2 below 12 condition groups / 6 RDM groups, 3 below 24 / 12, ...), rounded down
+        kw_sizes = {'n_rdm': n_r, 'n_pattern': n_p}
+        if rng.integers(3) == 0:
+            which = gen.pick(rng, ['pattern', 'rdm', 'both'])
+            if which in ('pattern', 'both'):
+                n_p = n_pg // (2 if n_pg < 12 else 3 if n_pg < 24 else 4 if n_pg < 40 else 5)
+                kw_sizes.pop('n_pattern')
+            if which in ('rdm', 'both'):
+                n_r = n_rg // (2 if n_rg < 6 else 3 if n_rg < 12 else 4 if n_rg < 20 else 5)
+                kw_sizes.pop('n_rdm')
+            kw_sizes.update({k: v for k, v in (('n_rdm', n_r), ('n_pattern', n_p)) if k in kw_sizes})
+            sig['default_sizes'] = which
         k_r = 2 if n_r > 0 else 1
         k_p = 2 if n_p > 0 else 1
         sig.update(n_rdm=n_r > 0, n_pattern=n_p > 0)
-        call = lambda: CS.sets_random(obj, n_rdm=n_r, n_pattern=n_p, n_cv=n_cv,  # noqa: E731
-                                      pattern_descriptor=meta['pdesc'], rdm_descriptor=meta['rdesc'])
+        call = lambda: CS.sets_random(obj, n_cv=n_cv, pattern_descriptor=meta['pdesc'],  # noqa: E731
+                                      rdm_descriptor=meta['rdesc'], **kw_sizes)
     sig['k'] = f'{"1" if k_r == 1 else "k"}x{"1" if k_p == 1 else "k"}'
     wit = lambda **k: dict(wit0, k_rdm=k_r, k_pattern=k_p, random=random, **k)  # noqa: E731
     ok, out = ctx.guarded(gname, sig, call, data=wit)
